@@ -142,13 +142,33 @@ def extract(configs, repo=REPO, log=None):
     return out, th, ran
 
 
+def remove_target_if_idle(td):
+    """Deletes a shared cargo target directory unless a cargo build is running in it (cargo holds an exclusive flock on
+    <target>/debug/.cargo-lock while it builds): checks of several trees may run concurrently."""
+    import fcntl
+    lock = os.path.join(td, "debug", ".cargo-lock")
+    fd = None
+    try:
+        if os.path.exists(lock):
+            fd = os.open(lock, os.O_RDWR)
+            try:
+                fcntl.flock(fd, fcntl.LOCK_EX | fcntl.LOCK_NB)
+            except OSError:
+                return False
+        shutil.rmtree(td, ignore_errors=True)
+        return True
+    finally:
+        if fd is not None:
+            os.close(fd)
+
+
 def _gc_target(td, limit_gb=10.0):
     """The shared cargo target directory grows with every distinct repository path that is analysed (path dependencies are
     separate units): start afresh beyond a size limit (only costs a rebuild of the dependencies, ~1 min)."""
     try:
         out = subprocess.run(["du", "-sk", td], stdout=subprocess.PIPE, text=True).stdout.split()
         if out and int(out[0]) > limit_gb * 1024 * 1024:
-            shutil.rmtree(td, ignore_errors=True)
+            remove_target_if_idle(td)
     except Exception:
         pass
 
